@@ -405,6 +405,7 @@ func RunBMC(meta *Tracer, traces [][][]TraceEvent, solverBin string, timeoutMs i
 	}
 	var steps []stepInfo
 	var qlog []string
+	tStart := time.Now()
 	defer func() { res.Notes = append(res.Notes, "query times: "+strings.Join(qlog, " ")) }()
 	raceAny := smt.False
 	nTrans := 0
@@ -435,11 +436,11 @@ func RunBMC(meta *Tracer, traces [][][]TraceEvent, solverBin string, timeoutMs i
 			}
 		}
 		next, anyEnabled := b.step(st, sched, t, &nTrans)
-		if t >= 3 && t >= minK && (t-minK)%ctEvery == 0 {
+		if t >= 3 && t >= minK && (t-minK)%ctEvery == 0 && time.Since(tStart) < time.Duration(2*timeoutMs)*time.Millisecond {
 			// completeness threshold: if no execution can still move at time t, the unrolling is complete
-			s.Send("(push 1)\n")
 			r := b.pr.Ref(anyEnabled)
 			s.Send(b.pr.Flush())
+			s.Send("(push 1)\n")
 			s.Send("(assert " + r + ")\n")
 			t0 := time.Now()
 			out := s.Check()
@@ -475,9 +476,14 @@ func RunBMC(meta *Tracer, traces [][][]TraceEvent, solverBin string, timeoutMs i
 		allDone = smt.And(allDone, smt.Eq(st.pc[i], b.pcc(0)))
 	}
 	query := func(name string, cond *smt.Term) (smt.Result, []int) {
-		s.Send("(push 1)\n")
+		if time.Since(tStart) > time.Duration(3*timeoutMs)*time.Millisecond {
+			s.LastErr = "time budget of the program used up (three query time limits)"
+			qlog = append(qlog, name+"=skipped")
+			return smt.Unknown, nil
+		}
 		r := b.pr.Ref(cond)
-		s.Send(b.pr.Flush())
+		s.Send(b.pr.Flush()) // definitions stay outside the scope that is popped again
+		s.Send("(push 1)\n")
 		s.Send("(assert " + r + ")\n")
 		t0 := time.Now()
 		out := s.Check()
@@ -539,6 +545,18 @@ func RunBMC(meta *Tracer, traces [][][]TraceEvent, solverBin string, timeoutMs i
 	}
 
 	var undecided []string
+	// 0. everything at once: no assertion failure, no thread left unfinished, no race.  unsat settles all three
+	// with one proof; sat or no verdict falls through to the separate queries, which name the kind.
+	{
+		all := smt.Or(st.bad, smt.Not(allDone))
+		if wantRace {
+			all = smt.Or(all, raceAny)
+		}
+		if out0, _ := query("all", all); out0 == smt.Unsat {
+			res.Verdict = "safe"
+			return res
+		}
+	}
 	// 1. safety
 	kinds := make([]string, 0, len(st.badKind))
 	for k := range st.badKind {
